@@ -6,7 +6,7 @@ From Coq Require Import List Arith Bool NArith Lia.
 Import ListNotations.
 Require Import Laze.model.Base Laze.model.Env Laze.model.Allow Laze.model.Ninja Laze.model.Ctx
                Laze.model.Generate Laze.model.Load Laze.model.Tasks Laze.model.Cache.
-Require Import Laze.proofs.BaseFacts Laze.proofs.LayerFacts Laze.proofs.GenerateFacts
+Require Import Laze.proofs.WorkList Laze.proofs.BaseFacts Laze.proofs.LayerFacts Laze.proofs.GenerateFacts
                Laze.proofs.CacheFacts Laze.proofs.CacheNarrow.
 Open Scope list_scope.
 
@@ -147,48 +147,16 @@ Lemma cview_stmts a r : gr_stmts (cview a r) = gr_stmts r /\ gr_file (cview a r)
 Proof. unfold cview. destruct (ca_builders a); split; reflexivity. Qed.
 
 (* ---------- the files the loader records are files of the tree ---------- *)
-Lemma finc_insert_ext x l : exists ext, finc_insert x l = l ++ ext.
-Proof. unfold finc_insert. destruct (existsb (finc_eqb x) l); [exists []; rewrite app_nil_r; reflexivity|exists [x]; reflexivity]. Qed.
-
-Lemma fold_ext {A B} (f : list B -> A -> list B) : (forall p a, exists ext, f p a = p ++ ext) ->
-  forall l p, exists ext, fold_left f l p = p ++ ext.
-Proof.
-  intros Hf. induction l as [|a t IH]; intros p; cbn [fold_left]; [exists []; rewrite app_nil_r; reflexivity|].
-  destruct (Hf p a) as [e1 E1]. destruct (IH (f p a)) as [e2 E2]. exists (e1 ++ e2). rewrite E2, E1, app_assoc. reflexivity.
-Qed.
-
-Lemma load_files_in_tree : forall fuel (t : ytree) (pending : list finc) pos docs ds (fs : list finc),
-  (forall i (inc : finc), i < pos -> nth_error pending i = Some inc -> alookup (fst inc) t <> None) ->
-  load_files fuel t pending pos docs = Ok (ds, fs) ->
-  forall inc, In inc fs -> alookup (fst inc) t <> None.
-Proof.
-  induction fuel as [|f IH]; intros t pending pos docs ds fs Hpre HL; [discriminate|].
-  cbn [load_files] in HL. destruct (nth_error pending pos) as [inc0|] eqn:En.
-  - destruct (alookup (fst inc0) t) as [ds0|] eqn:Ea; [|discriminate].
-    match type of HL with load_files f t ?P (S pos) ?D = _ => set (pending1 := P) in *; set (docs1 := D) in * end.
-    assert (Hext : exists ext, pending1 = pending ++ ext).
-    { unfold pending1. apply fold_ext. intros p d.
-      match goal with |- exists ext, fold_left ?g ?l2 (fold_left ?h ?l1 p) = _ =>
-        destruct (fold_ext h (fun p0 s => finc_insert_ext _ p0) l1 p) as [e1 E1];
-        destruct (fold_ext g (fun p0 s => finc_insert_ext _ p0) l2 (fold_left h l1 p)) as [e2 E2] end.
-      exists (e1 ++ e2). rewrite E2, E1, app_assoc. reflexivity. }
-    destruct Hext as [ext Hext]. apply (IH t pending1 (S pos) docs1 ds fs); [|exact HL].
-    intros i inc Hi Hn. rewrite Hext in Hn.
-    assert (Hlen : pos < length pending) by (apply nth_error_Some; rewrite En; discriminate).
-    rewrite nth_error_app1 in Hn by lia.
-    destruct (Nat.eq_dec i pos) as [->|Hne].
-    + rewrite En in Hn. injection Hn as <-. rewrite Ea. discriminate.
-    + apply (Hpre i inc); [lia|exact Hn].
-  - injection HL as <- <-. intros inc Hin. apply In_nth_error in Hin. destruct Hin as [i Hi].
-    apply (Hpre i inc); [|exact Hi].
-    destruct (Nat.lt_ge_cases i pos) as [Hlt|Hge]; [exact Hlt|]. exfalso.
-    apply nth_error_None in En. assert (i < length pending) by (apply nth_error_Some; rewrite Hi; discriminate). lia.
-Qed.
-
 Lemma alookup_ytree_of store t f : alookup f (ytree_of store t) <> None -> alookup f t <> None.
 Proof.
   unfold ytree_of. induction t as [|[f' v] r IH]; cbn; [tauto|].
   destruct (str_eqb f f'); [discriminate|exact IH].
+Qed.
+
+Lemma alookup_ytree_of_eq store (t : vtree) f : alookup f (ytree_of store t) = option_map (store f) (alookup f t).
+Proof.
+  unfold ytree_of. induction t as [|[f' v] r IH]; cbn; [reflexivity|].
+  destruct (str_eqb f f') eqn:E; [|exact IH]. apply str_eqb_eq in E. subst f'. reflexivity.
 Qed.
 
 Theorem cts_valid_self bd store t ts : cload_ts bd store t = Ok ts -> cts_valid ts t = true.
@@ -196,21 +164,32 @@ Proof.
   unfold cload_ts, loaded_files. intros HL.
   destruct (load (ytree_of store t) project_file bd); cbn [rbind] in HL; try discriminate.
   unfold rmap in HL.
-  destruct (load_files _ (ytree_of store t) [(project_file, None)] 0 []) as [[ds fs]| | |] eqn:ELF; cbn [rbind] in HL; try discriminate.
-  injection HL as <-. unfold cts_valid. apply forallb_forall. intros [f v] Hin. cbn [fst snd].
-  apply in_map_iff in Hin. destruct Hin as (f0 & E & Hf). injection E as -> <-. cbn [snd] in Hf.
-  apply in_map_iff in Hf. destruct Hf as (inc & <- & Hinc).
-  assert (Hne : alookup (fst inc) t <> None).
-  { apply (alookup_ytree_of store). eapply load_files_in_tree; [|exact ELF|exact Hinc]. intros i inc0 Hi. lia. }
-  unfold version. destruct (alookup (fst inc) t) as [v|]; [|contradiction]. cbn. apply N.eqb_refl.
+  destruct (load_files _ (ytree_of store t) [(project_file, (None, None))] 0 []) as [[ds fs]| | |] eqn:ELF; cbn [rbind] in HL; try discriminate.
+  injection HL as <-. unfold cts_valid. cbn [fst snd]. apply andb_true_intro. split.
+  - apply forallb_forall. intros [f v] Hin. cbn [fst snd].
+    apply in_map_iff in Hin. destruct Hin as (f0 & E & Hf). injection E as -> <-.
+    apply in_map_iff in Hf. destruct Hf as (inc & <- & Hinc).
+    assert (Hne : alookup (fst inc) t <> None).
+    { apply (alookup_ytree_of store). eapply load_files_in_tree; [|exact ELF|exact Hinc]. intros i inc0 Hi. lia. }
+    unfold version. destruct (alookup (fst inc) t) as [v|]; [|contradiction]. cbn. apply N.eqb_refl.
+  - apply forallb_forall. intros g Hg. apply absent_of_absent in Hg. unfold file_exists in Hg.
+    rewrite alookup_ytree_of_eq in Hg. destruct (alookup g t); [discriminate Hg|reflexivity].
 Qed.
 
 Lemma changed_file_invalidates (ts : tstate) (t : vtree) f v :
-  In (f, v) ts -> alookup f t <> Some v -> cts_valid ts t = false.
+  In (f, v) (fst ts) -> alookup f t <> Some v -> cts_valid ts t = false.
 Proof.
   intros Hin Hne. destruct (cts_valid ts t) eqn:E; [|reflexivity]. exfalso.
-  unfold cts_valid in E. rewrite forallb_forall in E. specialize (E (f, v) Hin). cbn [fst snd] in E.
+  unfold cts_valid in E. apply andb_prop in E. destruct E as [E _]. rewrite forallb_forall in E. specialize (E (f, v) Hin). cbn [fst snd] in E.
   destruct (alookup f t) as [v'|]; [|discriminate]. apply N.eqb_eq in E. subst. apply Hne. reflexivity.
+Qed.
+
+Lemma appeared_file_invalidates (ts : tstate) (t : vtree) f :
+  In f (snd ts) -> alookup f t <> None -> cts_valid ts t = false.
+Proof.
+  intros Hin Hne. destruct (cts_valid ts t) eqn:E; [|reflexivity]. exfalso.
+  unfold cts_valid in E. apply andb_prop in E. destruct E as [_ E]. rewrite forallb_forall in E. specialize (E f Hin).
+  destruct (alookup f t); [discriminate E|apply Hne; reflexivity].
 Qed.
 
 Section InstanceFacts.
